@@ -22,10 +22,19 @@ PREV[12] = [(f"run-{i:02d}", "neg2x3" if i % 3 else "tensor") for i in range(12)
 PREV[33] = [(f"run-{i:02d}", "neg2x3") for i in range(33)]
 
 
-def build_old(root: str, n_prev: int) -> None:
+# the results file is a symbolic link into a shared store (with one earlier run behind it / dangling)
+PREV["1-symlink"] = PREV[1]
+PREV["0-symlink"] = []
+
+
+def build_old(root: str, n_prev) -> None:
     os.makedirs(root, exist_ok=True)
     for name, kind in PREV[n_prev]:
         savefx.call_save_json(Path(root) / "data.json", name, savefx.make_output(kind, name))
+    if str(n_prev).endswith("symlink"):
+        if os.path.exists(os.path.join(root, "data.json")):
+            os.rename(os.path.join(root, "data.json"), os.path.join(root, "store.json"))
+        os.symlink("store.json", os.path.join(root, "data.json"))      # relative: survives copying the directory with symlinks=True
 
 
 def run_save(root: str, new_kind: str, ctl: crashfs.Controller | None, tracer=None) -> str:
@@ -121,7 +130,7 @@ def unit(u) -> Stats:
         old = open(p_old, "rb").read() if os.path.exists(p_old) else None
         # recording run
         rec = os.path.join(base, "rec")
-        shutil.copytree(oldroot, rec)
+        shutil.copytree(oldroot, rec, symlinks=True)
         ctl = crashfs.Controller("record", root=None)
         how = run_save(rec, new_kind, ctl)
         if how != "completed":
@@ -131,7 +140,7 @@ def unit(u) -> Stats:
         ops = list(ctl.ops)
         # the layer itself must be transparent: same bytes as a save without the layer
         plain = os.path.join(base, "plain")
-        shutil.copytree(oldroot, plain)
+        shutil.copytree(oldroot, plain, symlinks=True)
         run_save(plain, new_kind, None)
         if open(os.path.join(plain, "data.json"), "rb").read() != new:
             raise RuntimeError("CrashFS is not transparent: a recorded save differs from a plain save")
@@ -142,7 +151,7 @@ def unit(u) -> Stats:
             if counter[0] % shard_m != shard_k:       # the attempts of one unit are dealt round-robin to shard_m parallel shards
                 return
             d = os.path.join(base, f"f{counter[0]}")
-            shutil.copytree(oldroot, d)
+            shutil.copytree(oldroot, d, symlinks=True)
             c = mk_ctl(None) if mk_ctl else crashfs.Controller("record", root=None)
             how = run_save(d, new_kind, c, tracer)
             st.transitions += 1
@@ -156,7 +165,7 @@ def unit(u) -> Stats:
             if real_kill_at is not None:
                 # conformance: a forked child that really dies at the same operation must leave the same directory
                 d2 = os.path.join(base, f"r{counter[0]}")
-                shutil.copytree(oldroot, d2)
+                shutil.copytree(oldroot, d2, symlinks=True)
                 pid = os.fork()
                 if pid == 0:
                     try:
@@ -204,7 +213,7 @@ def unit(u) -> Stats:
                 # a rename that fails with EXDEV models "temporary file on another filesystem" (a move then degrades to a copy)
                 for e in (errno.ENOSPC,) + ((errno.EXDEV,) if op[0] in ("REPLACE", "RENAME", "LINK") else ()):
                     d0 = os.path.join(base, f"p{i}-{e}")
-                    shutil.copytree(oldroot, d0)
+                    shutil.copytree(oldroot, d0, symlinks=True)
                     c0 = crashfs.Controller("fail", i, err=e, root=None)
                     run_save(d0, new_kind, c0)
                     n_after = len(c0.ops)
@@ -217,7 +226,7 @@ def unit(u) -> Stats:
         elif part == "interrupt":
             probe = LineInterrupter(-1)
             d = os.path.join(base, "probe")
-            shutil.copytree(oldroot, d)
+            shutil.copytree(oldroot, d, symlinks=True)
             run_save(d, new_kind, crashfs.Controller("record", root=None), probe)
             total = probe.count
             if shard_k == 0:
@@ -254,7 +263,11 @@ def run(run: Run) -> None:
         for new_kind in ("neg2x3", "big3k"):
             for part in ("kill", "fail", "fail+kill") + (("tear",) if new_kind == "neg2x3" else ()):
                 us.append((n_prev, new_kind, part, 250 if quick else 3000, (0, 1)))
-    run.rule = ("file histories with 0 / 1 / 3 / 12 (33) earlier runs x new result of ~200 B / ~3 KiB / ~40 KiB x { kill before EVERY OS-level operation (and after the "
+    for n_prev in ("1-symlink", "0-symlink"):
+        for new_kind in ("neg2x3", "big3k"):
+            for part in ("kill", "fail", "fail+kill", "tear"):
+                us.append((n_prev, new_kind, part, 250 if quick else 3000, (0, 1)))
+    run.rule = ("file histories with 0 / 1 / 3 / 12 (33) earlier runs (and data.json being a symbolic link into a store, live or dangling) x new result of ~200 B / ~3 KiB / ~40 KiB x { kill before EVERY OS-level operation (and after the "
                 "last), EVERY byte offset of every write torn (payloads <= 2 KiB; first/last 64 and every 97th offset above), ENOSPC and EIO injected at EVERY "
                 "operation, fault sequences (an injected ENOSPC the program survives, then death before any later operation), KeyboardInterrupt at every traced Python line of the save } each followed by a fault-free recovery save; oracle: data.json is "
                 "byte-identical to the old file or to the complete new file, parses, keeps every earlier run. states = distinct directory contents "
